@@ -154,4 +154,15 @@ theorem textMethod_kids (cd : List Str) (b : Bool) : (ts : List Node) → textMe
   | k :: ks => by simp only [kidsEvents, textMethod_append, stringValueL, textMethod_node cd b k, textMethod_kids cd b ks]
 end
 
+theorem textMethodEnc_some (maxc : Nat) (evs : List Ev) (out : Str) (h : textMethodEnc true maxc evs = some out) :
+    out = textMethod evs ∧ out.all (· ≤ maxc) = true := by
+  unfold textMethodEnc at h
+  simp only [if_true] at h
+  split at h
+  · rename_i hall
+    simp only [Option.some.injEq] at h
+    subst h
+    exact ⟨rfl, hall⟩
+  · cases h
+
 end XalanModel.C08
